@@ -21,9 +21,62 @@ type schemaCase struct {
 	Format smodel.Format `json:"format"`
 	Model  *smodel.Model `json:"model"`
 	Docs   []smodel.Doc  `json:"docs"`
+	// SplitPkg (OpenAPI only): the Moved definitions live in a second package
+	// and the first one refers to them across files.
+	SplitPkg string   `json:"split_pkg,omitempty"`
+	Moved    []string `json:"moved,omitempty"`
 }
 
+// source is the single-document rendering (what the reference validator reads).
 func (c schemaCase) source() string { return smodel.Render(c.Format, c.Model) }
+
+// inputs are the pipeline inputs of the case.
+func (c schemaCase) inputs() []e2.InputSpec {
+	if c.SplitPkg == "" || c.Format != smodel.OpenAPI {
+		return []e2.InputSpec{{Format: c.Format, Package: c.Model.Package, Source: c.source()}}
+	}
+	moved := map[string]bool{}
+	for _, n := range c.Moved {
+		moved[n] = true
+	}
+	a, b := smodel.RenderOpenAPISplit(c.Model, c.SplitPkg, moved)
+	return []e2.InputSpec{
+		{Format: smodel.OpenAPI, Package: c.Model.Package, Source: a, FileName: c.Model.Package + ".json"},
+		{Format: smodel.OpenAPI, Package: c.SplitPkg, Source: b, FileName: c.SplitPkg + ".json"},
+	}
+}
+
+// pkgOf tells which package a definition lives in.
+func (c schemaCase) pkgOf(def string) string {
+	for _, n := range c.Moved {
+		if n == def && c.SplitPkg != "" {
+			return c.SplitPkg
+		}
+	}
+	return c.Model.Package
+}
+
+// drawSplit moves the definitions that can live in a second package there.
+func drawSplit(rt *rapid.T, c *schemaCase) {
+	if c.Format != smodel.OpenAPI {
+		return
+	}
+	movable := c.Model.MovableDefs()
+	var names []string
+	for _, d := range c.Model.Defs {
+		if movable[d.Name] {
+			names = append(names, d.Name)
+		}
+	}
+	if len(names) == 0 {
+		return
+	}
+	c.SplitPkg = "common"
+	if c.Model.Package == "common" {
+		c.SplitPkg = "shared"
+	}
+	c.Moved = names
+}
 
 func drawSchemaCase(rt *rapid.T, cfg smodel.GenConfig, docsPerDef int) schemaCase {
 	cfg.NestedCollections = rapid.IntRange(0, 2).Draw(rt, "nestedcollections") == 0
@@ -85,7 +138,7 @@ func generateGo(work string, caseID string, c schemaCase, out e2.OutputSpec) gen
 		out.Go = &g
 	}
 	sig, msg, panicked := vlib.Guard(func() {
-		p, err := e2.NewPipeline(filepath.Join(work, caseID+"_in"), caseID, []e2.InputSpec{{Format: c.Format, Package: c.Model.Package, Source: c.source()}}, out)
+		p, err := e2.NewPipeline(filepath.Join(work, caseID+"_in"), caseID, c.inputs(), out)
 		if err != nil {
 			res.genErr = err
 			return
@@ -163,6 +216,8 @@ type e2Prepared struct {
 	validators []*smodel.Validator
 	// usable[i]: the case was generated, compiles and has a reference validator
 	usable []bool
+	// files[i]: everything cog generated for the case
+	files []e2.Files
 }
 
 func (p *e2Prepared) Close() {
@@ -190,6 +245,7 @@ func e2Prepare(run *vlib.Run, prefix string, cases []schemaCase, out e2.OutputSp
 	}
 	p.validators = make([]*smodel.Validator, len(cases))
 	p.usable = make([]bool, len(cases))
+	p.files = make([]e2.Files, len(cases))
 	for i, c := range cases {
 		id := fmt.Sprintf("c%02d", i)
 		p.ids = append(p.ids, id)
@@ -209,6 +265,7 @@ func e2Prepare(run *vlib.Run, prefix string, cases []schemaCase, out e2.OutputSp
 			count(run, "rejected:"+string(c.Format), 1)
 			note(run, "cog refused a %s schema: %v", c.Format, firstLine(g.genErr.Error()))
 		default:
+			p.files[i] = g.files
 			if err := batch.Add(id, g.files); err != nil {
 				p.Close()
 				return nil, err
